@@ -23,10 +23,11 @@ type C07Elem struct {
 }
 
 type C07Case struct {
-	Client string    `json:"client"`        // streamable-json streamable-sse streamable-get legacy stdio
-	Script []C07Elem `json:"script"`        // what the server emits in reaction to the affected call ("valid" = the valid answer)
-	Extra  int       `json:"extra"`         // other calls pending at the same time (answered normally)
-	Pad    int       `json:"pad,omitempty"` // bytes of padding in the affected call's arguments (the valid answer echoes them)
+	Client string    `json:"client"`          // streamable-json streamable-sse streamable-get legacy stdio
+	Script []C07Elem `json:"script"`          // what the server emits in reaction to the affected call ("valid" = the valid answer)
+	Extra  int       `json:"extra"`           // other calls pending at the same time (answered normally)
+	Pad    int       `json:"pad,omitempty"`   // bytes of padding in the affected call's arguments (the valid answer echoes them)
+	Split  bool      `json:"split,omitempty"` // event streams: each frame's terminating blank line arrives in a later read than the frame
 }
 
 var c07Junk = []string{"comment", "blank", "nonjson", "notification", "unknown-request", "unknown-id", "id-bool", "id-object", "id-string", "no-result", "both", "giant", "garbage", "bom", "cr-valid",
@@ -63,6 +64,7 @@ func genC07(t *rapid.T) C07Case {
 	}
 	c.Extra = rapid.IntRange(0, 3).Draw(t, "extra")
 	c.Pad = rapid.SampledFrom([]int{0, 0, 0, 3000, 200000}).Draw(t, "pad")
+	c.Split = rapid.IntRange(0, 2).Draw(t, "split") == 0
 	return c
 }
 
@@ -231,7 +233,7 @@ func runC07WithFake(c C07Case, preset *FakeServer) *Failure {
 	planRaw := func(raw, ct string) func(method, kind string, nth int) FakeAction {
 		return func(method, kind string, nth int) FakeAction {
 			if method == "tools/call" && affected.CompareAndSwap(true, false) {
-				return FakeAction{Kind: "raw", Raw: raw, CT: ct}
+				return FakeAction{Kind: "raw", Raw: raw, CT: ct, Split: c.Split}
 			}
 			return FakeAction{}
 		}
@@ -291,6 +293,8 @@ func runC07WithFake(c C07Case, preset *FakeServer) *Failure {
 		cl = hc
 	}
 	cl.RegisterNotificationHandler("notifications/verif-after", func(n *mcp.JSONRPCNotification) error { notifSeen.Add(1); return nil })
+	var giantSeen atomic.Int64
+	cl.RegisterNotificationHandler("notifications/verif-giant", func(n *mcp.JSONRPCNotification) error { giantSeen.Add(1); return nil })
 	closed := false
 	defer func() {
 		if !closed {
@@ -312,7 +316,11 @@ func runC07WithFake(c C07Case, preset *FakeServer) *Failure {
 		if fake.GetOpen.Load() == 0 {
 			return TimingFailf("C07/no-listening-stream", "%s: the client did not open its listening stream", where)
 		}
-		fake.PushToStreams("RAW:" + strings.ReplaceAll(strings.ReplaceAll(c07SSE(c.Script, false), "{{valid}}", `{"jsonrpc":"2.0","method":"notifications/verif-junk2"}`), "{{id}}", "1"))
+		pfx := "RAW:"
+		if c.Split {
+			pfx = "RAWSPLIT:"
+		}
+		fake.PushToStreams(pfx + strings.ReplaceAll(strings.ReplaceAll(c07SSE(c.Script, false), "{{valid}}", `{"jsonrpc":"2.0","method":"notifications/verif-junk2"}`), "{{id}}", "1"))
 	}
 	// the affected call, with other calls pending
 	type res struct {
@@ -401,6 +409,23 @@ func runC07WithFake(c C07Case, preset *FakeServer) *Failure {
 			if notifSeen.Load() == 0 {
 				return classifyC07(c, TimingFailf("C07/stream-stops-processing/"+c.Client, "%s: a well-formed notification sent after the junk never reached its handler", where))
 			}
+		}
+	}
+	// the well-formed (if large) notifications among the junk reached their handler, on the stream that outlives the call
+	// (the legacy SSE client has no notification handlers to deliver to)
+	if c.Client == "streamable-get" {
+		giants := 0
+		for _, e := range c.Script {
+			if e.Kind == "giant" {
+				giants++
+			}
+		}
+		deadline := time.Now().Add(Patience())
+		for int(giantSeen.Load()) < giants && time.Now().Before(deadline) {
+			time.Sleep(300 * time.Microsecond)
+		}
+		if got := int(giantSeen.Load()); got != giants {
+			return classifyC07(c, TimingFailf("C07/well-formed-frame-dropped/"+c.Client, "%s split=%v: %d of the %d well-formed large notifications among the junk reached their handler", where, c.Split, got, giants))
 		}
 	}
 	// idle client must not burn CPU
